@@ -60,7 +60,7 @@ func init() {
 			"charAt/charCodeAt called (through call/apply) with a this value that is not a String object: Go nil-pointer panic escapes (the built-in reads call.This.object().stringValue() without ToObject/ToString)",
 			altCharAtReceiver),
 		am("c09-fffd-sentinel",
-			"charAt/charCodeAt/[[GetOwnProperty]] use utf8.RuneError (U+FFFD) as the out-of-range sentinel: a genuine U+FFFD unit at the position reads as out of range",
+			"charAt/charCodeAt use utf8.RuneError (U+FFFD) as the out-of-range sentinel: a genuine U+FFFD unit at the position reads as out of range ([[GetOwnProperty]] was repaired by aa072f0)",
 			altFFFDSentinel),
 		am("c09-lastindexof-nan",
 			"lastIndexOf: a position that converts to NaN is treated as 0 instead of +Infinity (15.5.4.8 step 5)",
@@ -368,18 +368,6 @@ func altFFFDSentinel(k *kase) (string, bool) {
 			return cStr(nil), true
 		}
 		return cNum(math.NaN()), true
-	case "index":
-		c, ok := str16.OwnIndex(k.s, k.a.prop, propToInteger(k.a))
-		if !ok || c != 0xFFFD {
-			return "", false
-		}
-		return "u", true
-	case "prop":
-		c, ok := str16.OwnIndex(k.s, k.a.prop, str16.ToInteger(k.a.arg.Num))
-		if !ok || c != 0xFFFD {
-			return "", false
-		}
-		return propOutcome(k.route, 0, false), true
 	case "readback":
 		has := false
 		parts := []string{fmt.Sprint(len(k.s))}
